@@ -129,13 +129,19 @@ def flat(tree):
     return np.concatenate(ls) if ls else np.zeros(0)
 
 
+_MAXD = {"value": 0.0, "grad": 0.0}   # largest scaled differences seen on accepted comparisons (calibration record, goes to evidence notes)
+
+
 def close(a, b, tol=VTOL):
     a, b = float(a), float(b)
     if np.isnan(a) or np.isnan(b):
         return np.isnan(a) and np.isnan(b)
     if np.isinf(a) or np.isinf(b):
         return a == b
-    return abs(a - b) <= tol * max(1.0, abs(a), abs(b))
+    d = abs(a - b) / max(1.0, abs(a), abs(b))
+    if d <= tol:
+        _MAXD["value"] = max(_MAXD["value"], d)
+    return d <= tol
 
 
 def vclose(a, b, tol=GTOL):
@@ -143,7 +149,22 @@ def vclose(a, b, tol=GTOL):
     if a.shape != b.shape or not (np.all(np.isfinite(a)) and np.all(np.isfinite(b))):
         return False
     sc = max(1.0, float(np.max(np.abs(a), initial=0.0)), float(np.max(np.abs(b), initial=0.0)))
-    return float(np.max(np.abs(a - b), initial=0.0)) <= tol * sc
+    d = float(np.max(np.abs(a - b), initial=0.0)) / sc
+    if d <= tol:
+        _MAXD["grad"] = max(_MAXD["grad"], d)
+    return d <= tol
+
+
+def _free_compiled(prefixes=None):
+    """Drop compiled executables (XLA's CPU JIT runs out of code-section memory after some hundred compilations:
+    'LLVM ERROR: Unable to allocate section memory')."""
+    s = _jx()
+    c = s["cache"]
+    for k in [k for k in c if prefixes is None or (isinstance(k, tuple) and k[0] in prefixes)]:
+        if not (isinstance(k, tuple) and k[0] == "base"):
+            del c[k]
+    s["jax"].clear_caches()
+    s["eqx"].clear_caches()
 
 
 def cached(key, make):
@@ -178,18 +199,19 @@ def np_contrastive(LQ, PR, idxs):
 
 
 def idx_clauses(idxs, B, n):
-    """The index clauses of the property on an observed index array; list of failures."""
+    """The index clauses of the property on an observed index array; list of failures (each starts with a stable kind word)."""
     errs = []
     a = np.asarray(idxs)
     if a.shape != (B, n):
-        return [f"shape {a.shape} != ({B}, {n})"]
+        return [f"count: {a.shape[-1] if a.ndim == 2 else a.shape} indices per row instead of n_contrastive = {n} (shape {a.shape}, expected ({B}, {n}))"]
     for i, row in enumerate(a.tolist()):
         if i in row:
-            errs.append(f"row {i} contains itself: {row}")
+            errs.append(f"self: row {i} contains itself: {row}")
         if len(set(row)) != n:
-            errs.append(f"row {i} has repeated rows of the batch: {row}")
+            errs.append(f"repeated: row {i} has repeated rows of the batch: {row}")
         if any(not (0 <= v < B) for v in row):
-            errs.append(f"row {i} leaves the batch 0..{B - 1}: {row}")
+            errs.append(f"range: row {i} leaves the batch 0..{B - 1}: {row}")
+    errs.sort(key=lambda e: e.split(":")[0])
     return errs
 
 
@@ -339,8 +361,8 @@ def unit_elbo(ctx):
                               "computed without stop_gradient), plain == path + score; and the dual-number run of Model.elbo_loss == <grad, v>; "
                               "non-trivial = the score term is not ~0 (max entry > 1e-3)")
     combos = ([("Normal2", "quad", 1), ("Normal2", "wiggle", 4), ("MAF2", "quad", 3), ("MAF2-frozen-base", "wiggle", 4)] if ctx.quick else
-              [(d, t, n) for d in UNCOND for t in ("quad", "wiggle") for n in (1, 2, 5, 16)])
-    reps = 3 if ctx.quick else 12
+              [(d, t, n) for d in UNCOND for t in ("quad", "wiggle") for n in (1, 3, 8)])
+    reps = 3 if ctx.quick else 10
     cases, reqs = [], []
     for name, tname, n in combos:
         for rep in range(reps):
@@ -353,6 +375,7 @@ def unit_elbo(ctx):
             for stl in (0, 1):
                 reqs.append(f"c17.elbo {stl} {n} {hexlist(a['lq_s'])} {hexlist(a['t_s'])} {hexlist(a['lq_slp'])} {hexlist(a['t_slp'])}")
                 reqs.append(f"c17.elbod {stl} {n} {hexlist(a['lq'])} {hexlist(a['sc'])} {hexlist(a['pathq'])} {hexlist(a['t'])} {hexlist(a['patht'])}")
+        _free_compiled(("elboref", "elboloss"))
     out = ctx.model(reqs)
     for ci, (cj, ref, obs, v) in enumerate(cases):
         n, sd = cj["num_samples"], cj["sd"]
@@ -491,7 +514,7 @@ def unit_idxs(ctx):
                           case=cj, found_input=False, unit=u.name, broken="hypothesis choice_ok")
         if errs or got != m:
             u.disagreements += got != m
-            ctx.violation(sig=f"_get_contrastive_idxs:{errs[0].split(' ')[2] if errs else 'model-mismatch'}",
+            ctx.violation(sig=f"_get_contrastive_idxs:{errs[0].split(':')[0] if errs else 'model-mismatch'}",
                           what=(f"_get_contrastive_idxs(PRNGKey({cj['key']}), {B}, {n}) = {idx.tolist()}: " + "; ".join(errs[:3])) if errs else
                                f"_get_contrastive_idxs(PRNGKey({cj['key']}), {B}, {n}) = {idx.tolist()} but the index model (delete position i from arange(B), choice at key i) gives {m}",
                           case=cj, found_input=bool(errs), unit=u.name, expected=m, observed=got,
@@ -586,10 +609,19 @@ def _contr_judge(cj, o, m_full, m_rows):
     mr = fparse(m_rows.split()[0])
     mf = fparse(m_full) if m_full not in ("RAISE",) and not m_full.startswith("ERR") else float("nan")
     if ierrs:
-        errs.append(dict(kind="indices", oracle=True, observed=o["idx"].tolist(), broken="theorem C17_contrastive_indices / contrastive-idxs",
+        errs.append(dict(kind="indices:" + ierrs[0].split(":")[0], oracle=True, observed=o["idx"].tolist(), broken="theorem C17_contrastive_indices / contrastive-idxs",
                          what=f"the rows used are not n distinct other rows: {ierrs[0]}"))
     if not (v >= -1e-12):
         errs.append(dict(kind="negative", oracle=True, observed=v, expected=">= 0", broken="theorem C17_contrastive_nonneg", what=f"ContrastiveLoss = {v!r} < 0"))
+    # independent of _get_contrastive_idxs altogether: with ALL other rows as contrastive set the loss is maximal, and it is
+    # THE value when n = B-1 (no freedom left), whatever the key
+    full, _ = np_contrastive(o["LQ"], o["PR"], [[j for j in range(B) if j != i] for i in range(B)])
+    if n == B - 1 and not close(v, full):
+        errs.append(dict(kind="value:all-other-rows", oracle=True, expected=full, observed=v, broken="theorems C17_contrastive_indices + C17_contrastive_spec",
+                         what=f"n_contrastive = batch - 1, so every other row must be used: ContrastiveLoss = {v!r} but the cross-entropy against all other rows = {full!r}"))
+    elif not (v <= full + VTOL * max(1.0, abs(full))):
+        errs.append(dict(kind="value:above-all-rows", oracle=True, expected=f"<= {full!r}", observed=v, broken="theorem C17_contrastive_spec",
+                         what=f"ContrastiveLoss = {v!r} exceeds the cross-entropy against all other rows {full!r} (impossible for a subset of distinct other rows)"))
     if not close(v, ov):
         errs.append(dict(kind="value", oracle=True, expected=ov, observed=v, broken="correspondence contrastive-loss / theorem C17_contrastive_spec",
                          what=f"ContrastiveLoss = {v!r} but the mean softmax cross-entropy over the rows _get_contrastive_idxs gives at this key = {ov!r}"))
@@ -636,7 +668,9 @@ def run(ctx):
             continue
         t0 = time.time()
         f(ctx)
+        _free_compiled()
         ctx.notes.append(f"{f.__name__}: {time.time() - t0:.1f}s")
+    ctx.notes.append(f"largest scaled difference on accepted comparisons: values {_MAXD['value']:.2e} (tolerance {VTOL:g}), gradients {_MAXD['grad']:.2e} (tolerance {GTOL:g})")
     ctx.assumptions += [
         "the distributions themselves are not modelled: their public log_prob / sample / sample_and_log_prob are the model's function arguments (C03, C05 own them)",
         "jr.split(k, n) returns n keys; jr.choice(k, a, (n,), replace=False) == a[jr.choice(k, len(a), (n,), replace=False)] returns n distinct entries (checked on every replayed draw)",
